@@ -24,6 +24,7 @@ CONSTANTS Kinds,      \* kinds of objects 1..Len(Kinds): "sock" | "pipeR" | "pip
           TickUs,     \* microseconds per tick (only scales stamps)
           Class,      \* scenario class handed to the monitor: "gen" | "chain"
           Focus,      \* properties enforced by the monitor in this run
+          Late,       \* objects (indices into Kinds) that do not exist at the start: an "open" command creates them
           MaxHist,    \* 0: unbounded; otherwise simulation bound on ncmd handled by MaxCmds anyway
           BUG_HupOnly,          \* TRUE: Poll dispatches only on EPOLLIN/EPOLLOUT (HUP/ERR-only events are never dispatched)
           BUG_StaleTimer,       \* TRUE: timer handler fires without checking that the timerfd really expired
@@ -46,7 +47,7 @@ VARIABLES
   \* --- ghost: by which code path the current registration was established (no effect on behaviour;
   \*     part of the VIEW so that the transition cover continues after every distinct path) ---
   thow,       \* [T -> "none" | "set" | "stale"]
-  ohow,       \* [O -> [R, W : "none" | "first" | "limit" | "retry"]]
+  ohow,       \* [O -> [R, W : "none" | "first" | "limit" | "retry", B : where the object was created]]
   \* --- kernel / environment ---
   rdata,      \* [O -> 0..MaxData]   readable units (bytes / queued connections / datagrams)
   peer,       \* [O -> "open" | "closed" | "reset"]
@@ -92,14 +93,16 @@ Emit(e)  == LET f == IF drain /\ stack = <<>> THEN [e EXCEPT !.note = "drain"] E
 RP == drain /\ Class = "runpending"
 NoEvent  == UNCHANGED <<monvars, hist>>
 
-ResetEv == [Z EXCEPT !.ev = "Reset", !.kinds = Kinds, !.cls = Class, !.lim = Limit, !.n = NT]
+LateMask == (IF 1 \in Late THEN 1 ELSE 0) + (IF 2 \in Late THEN 2 ELSE 0) + (IF 3 \in Late THEN 4 ELSE 0)
+            + (IF 4 \in Late THEN 8 ELSE 0)
+ResetEv == [Z EXCEPT !.ev = "Reset", !.kinds = Kinds, !.cls = Class, !.lim = Limit, !.n = NT, !.d = LateMask]
 
 Init ==
   /\ interest = [o \in O |-> {}] /\ rop = [o \in O |-> 0] /\ wop = [o \in O |-> 0]
-  /\ oclosed = [o \in O |-> FALSE] /\ pending = 0 /\ dispatched = 0 /\ posts = <<>>
+  /\ oclosed = [o \in O |-> o \in Late] /\ pending = 0 /\ dispatched = 0 /\ posts = <<>>
   /\ tst = [t \in T |-> "ready"] /\ tcan = [t \in T |-> FALSE] /\ tint = [t \in T |-> FALSE]
   /\ trep = [t \in T |-> 0]
-  /\ thow = [t \in T |-> "none"] /\ ohow = [o \in O |-> [R |-> "none", W |-> "none"]]
+  /\ thow = [t \in T |-> "none"] /\ ohow = [o \in O |-> [R |-> "none", W |-> "none", B |-> IF o \in Late THEN "unborn" ELSE "init"]]
   /\ rdata = [o \in O |-> 0] /\ peer = [o \in O |-> "open"] /\ wfull = [o \in O |-> FALSE]
   /\ yanked = [o \in O |-> FALSE] /\ rcount = [o \in O |-> 0]
   /\ tarmed = [t \in T |-> -1] /\ texp = [t \in T |-> FALSE] /\ evfd = FALSE /\ rdy = <<>> /\ now = 0
@@ -225,10 +228,25 @@ Close(o) ==
      /\ interest' = [interest EXCEPT ![o] = left]
      /\ pending' = pending - Cardinality(interest[o] \ left)
   /\ rdy' = Without(rdy, o)
-  /\ ohow' = [ohow EXCEPT ![o] = [R |-> "none", W |-> "none"]]
+  /\ ohow' = [ohow EXCEPT ![o].R = "none", ![o].W = "none"]
   /\ stack' = Push(<<[Fr("closeE", 0) EXCEPT !.o = o]>>)
   /\ Emit([Z EXCEPT !.ev = "CloseB", !.o = o])
   /\ UNCHANGED <<rop, wop, dispatched, posts, tst, tcan, tint, trep, thow, rdata, rcount, peer, wfull, yanked, tarmed, texp, evfd, now,
+                 inpoll, batch, bi, bphase, pq, nop, npost, drain, dpolls, done>>
+
+\* A new object is created (sonic.Dial, sonic.Open, ...): nothing is registered with the poller. The kernel
+\* gives it the lowest free descriptor number - the number of an object closed earlier if there is one. The
+\* ghost field B records where that happened (top level / inside a callback, with or without a closed
+\* object's number free), so that the transition cover continues behind each of these paths.
+Open(o) ==
+  /\ CanCmd /\ "open" \in Cmds /\ ohow[o].B = "unborn"
+  /\ ncmd' = ncmd + 1
+  /\ oclosed' = [oclosed EXCEPT ![o] = FALSE]
+  /\ ohow' = [ohow EXCEPT ![o].B = (IF stack = <<>> THEN "top" ELSE "cb") \o
+                                   (IF \E p \in O : oclosed[p] /\ ohow[p].B # "unborn" THEN "+reuse" ELSE "")]
+  /\ stack' = Push(<<>>)
+  /\ Emit([Z EXCEPT !.ev = "Open", !.o = o])
+  /\ UNCHANGED <<interest, rop, wop, pending, dispatched, posts, tst, tcan, tint, trep, thow, envvars,
                  inpoll, batch, bi, bphase, pq, nop, npost, drain, dpolls, done>>
 
 Post ==
@@ -586,7 +604,7 @@ DrainStep ==
 
 \* ------------------------------------------------------------------ next-state relation
 Command ==
-  /\ \/ \E o \in O : Start("R", o) \/ Start("W", o) \/ Cancel(o) \/ Close(o)
+  /\ \/ \E o \in O : Start("R", o) \/ Start("W", o) \/ Cancel(o) \/ Close(o) \/ Open(o)
      \/ Post
      \/ \E t \in T : TCancel(t) \/ TClose(t) \/ (\E d \in 1..2 : TSched(t, 0, d) \/ TSched(t, 1, d))
   \* a top-level command is followed by a sample of the getters once it has run to completion
@@ -633,7 +651,7 @@ TmView == [t \in DOMAIN tm |-> [tm[t] EXCEPT !.sn = 0, !.attsn = 0]]
 View == <<libvars, envvars, ctlvars, rpin, rpdone,
           <<kinds, cls, lim, base, ost, ops, csnap, TmView, posted, ranp, anomaly, rnext, bad>>>>
 
-IsCmdEv(e) == e.ev \in {"Call", "CancelB", "CloseB", "PostE", "TSchedB", "TCancelE", "TCloseE", "Env", "PollB"}
+IsCmdEv(e) == e.ev \in {"Call", "CancelB", "CloseB", "PostE", "TSchedB", "TCancelE", "TCloseE", "Env", "PollB", "Open"}
 
 \* transition cover: every generated transition that issues a command (outside
 \* the model's drain phase) is printed as the history leading to it; the driver
